@@ -175,6 +175,19 @@ def run(tier, seed):
     for k, kw, ma in pc:
         for via in ("config", "instance"):
             ops.append({"op": "pconstruct", "target": shipped.T[k], "kwargs": kw, "via": via, "model_args": ma})
+    # verbosity: the integer -> loguru level map on and around 0..4 and on non-integers; set_verbosity by integer and by name (any case)
+    vops = []
+    for v in range(-3, 9):
+        vops.append({"op": "verbosity", "value": v, "model_args": f"int={v}"})
+    for v in (2.0, 2.5, "2", "INFO", None, [2]):
+        vops.append({"op": "verbosity", "value": v, "model_args": "nonint=1"})
+    vops.append({"op": "verbosity", "value": True, "model_args": "int=1"})        # bool is an int in Python: True is level 1
+    for v in range(-2, 7):
+        vops.append({"op": "verbosity", "set": v, "model_args": f"set=int:{v}"})
+    for nm in ["ERROR", "WARNING", "INFO", "DEBUG", "TRACE", "error", "warning", "info", "debug", "trace", "Info", "dEbUg", "tRACE", "Warning",
+               "", "verbose", "WARN", "2", "INFOS", "TRAC", "critical", "SUCCESS"]:
+        vops.append({"op": "verbosity", "set": nm, "model_args": f"set=name:{nm}"})
+    ops += vops
     W = 8
     chunks = [ops[i::W] for i in range(W)]
     outs = session.run_sessions_parallel([(c, 1) for c in chunks if c], workers=W)
@@ -183,6 +196,13 @@ def run(tier, seed):
         for (op, m, i, line) in out:
             res.evaluations += 1
             di = core.parse_resp(i)
+            if op["op"] == "verbosity":
+                res.count("verbosity:" + i.split(" ")[0].replace("error=", ""))
+                res.nontrivial.add(("verbosity", str(op.get("value", "")), str(op.get("set", "")), "set" in op))
+                if i != (m or ""):
+                    res.disagreements.append({"channel": "C20/verbosity", "case": {k: v for k, v in op.items() if k != "model_args"}, "model": m, "impl": i, "failing_input": True,
+                                              "what": "verbosity level accepted / rejected / mapped contrary to the documented 0..4 <-> ERROR..TRACE table", "key": "verbosity"})
+                continue
             if op["op"] == "pconstruct":
                 res.count("problem-config:" + ("ok" if i == "ok" else di.get("error", "?")))
                 res.nontrivial.add(("p", op["target"], str(op["kwargs"]), op["via"]))
